@@ -28,6 +28,14 @@ Granularity.  The event loop's ready queue is explicit (`queue`, FIFO — asynci
 event is followed by a drain (`drained`); the theorems that hold for arbitrary placement
 of drains are proved for arbitrary placement.
 
+The protocol updaters' own `active` flag (`act`): `FacadePushUpdater.start/stop` call
+`instance.start()/stop()`, which set it; real updaters (MRP/DMAP pollers) also turn
+inactive by themselves after an error or cancellation while still holding the listener —
+event `selfact`.  On the pinned code neither start(), stop() nor playstatus_update look
+at it (stop() un-wires EVERY instance), so no other state depends on `act`
+(`selfact_irrelevant`); `FacadePushUpdater.active` relays the main instance's flag, which
+the driver prints and the harness compares.
+
 A user listener that raises: the call was made (it is an output of the model), the
 exception leaves the call_soon callback into the loop's exception handler, and — because
 the pinned code stores `_volume` / `_output_devices` / `_focus_state` and `_previous_state`
@@ -70,6 +78,7 @@ inductive Ev
   | takeover (p : Proto) (push kbd : Bool)     -- atv.takeover(p, [PushUpdater]?, [Keyboard]?)
   | release                                    -- call the newest outstanding release function
   | change (k : Kind) (p : Proto) (v : Val)    -- protocol p's state dispatcher: dispatch(k, v)
+  | selfact (p : Proto) (b : Bool)             -- updater_p's own `active` turns b by itself (error, cancellation, restart)
   | drain                                      -- the loop runs everything in its ready queue
   deriving DecidableEq, Repr
 
@@ -80,6 +89,7 @@ structure St where
   tkK : Option Proto := none        -- Keyboard relayer: _takeover_protocol
   handles : List (Bool × Bool) := []  -- outstanding release functions: which relayers they release
   lst : Bool := false               -- instance.listener is the facade (start) / None (stop)
+  act : Proto → Bool := fun _ => false  -- updater_p.active (protocol-owned; start/stop set it, it may change by itself)
   prev : Proto → Option Val := fun _ => none   -- updater_p._previous_state
   cur : Kind → Val := fun _ => 0    -- facade _volume / _output_devices / _focus_state
   queue : List Cb := []             -- loop ready queue (FIFO)
@@ -125,8 +135,9 @@ def step (st : St) : Ev → St × List Out
   | .post p s =>
       ({ st with prev := setFn st.prev p (some s),
                  queue := if st.postsThrough p s then st.queue ++ [.play p s] else st.queue }, [])
-  | .start => ({ st with lst := true }, [])
-  | .stop => ({ st with lst := false }, [])
+  | .start => ({ st with lst := true, act := fun q => if q ∈ st.regP then true else st.act q }, [])
+  | .stop => ({ st with lst := false, act := fun q => if q ∈ st.regP then false else st.act q }, [])
+  | .selfact p b => ({ st with act := setFn st.act p b }, [])
   | .takeover p push kbd =>
       if st.takeoverOk push kbd then
         ({ st with tkP := if push then some p else st.tkP,
